@@ -542,11 +542,17 @@ def run(chk):
         fps = summ.forward_local_arrays(eps)          # a draw may reach b through a scratch buffer private to the call
         stn, detn, n_noise = coverage.filled_by(
             fps, sym.arrow(P(res, "b"), "coefsT"), Nn,
-            lambda val, ix: None if (val[0] == "call" and val[1] == "gaussian32" and val[2][0] == ZERO) else
+            lambda val, ix: None if summ.is_gaussian_draw(eps, val) else
             "b[%s] = %s is not gaussian32(0, alpha)" % (sym.show(ix), sym.show(val)[:60]))
         if stn == "unknown":
             chk.broken("tLweSymEncryptZero: noise statements: %s" % detn)
         if stn == "refuted":
+            later = summ.noise_added_later(eps, sym.arrow(P(res, "b"), "coefsT"))
+            opq = [q_ for q_ in summ.opaque_writers(v, eps) if q_["kind"] in ("while", "unknown", "asm")]
+            if later is None and opq:
+                chk.broken("tLweSymEncryptZero: %s may write b, which the analysis does not see through" % summ.show_opaque(opq))
+            if later is not None:
+                chk.broken("tLweSymEncryptZero: the noise is added to b after the products (line %s), an arrangement this rule does not decide" % later["line"])
             problems.append("b is not initialised to gaussian32(0, alpha) in all N coefficients: %s" % detn)
         chk.require(not problems, "R2", "tLweSymEncryptZero: b = noise + sum_{i<k} key[i]*a[i]", where=ez.where,
                     ok="b[j] = gaussian32(0,alpha), j<N; AddMulR(b, key[i], a[i]) for i<k", bad="; ".join(problems), variant=vn)
